@@ -396,6 +396,9 @@ def r5_errors_propagate(ctx):
 
 
 def run(ctx):
+    from .shared import zip_alignment
+
+    zip_alignment(ctx, 'C08.R3', ctx.corpus.func('repository', 'Repository.clean'), 'clean')
     from ..report import Relabel
     from .c13 import r3_prefix
     from .c14 import r5_no_stale_key_state
